@@ -14,10 +14,10 @@
 using namespace sim; using namespace msggen;
 
 enum { ST_RUNS, ST_EVALS, ST_MSG, ST_BUNDLE, F_CAP_SHORT, F_CAP_EXACT, F_CAP_ZERO, F_CAP_GENEROUS, F_LINK_MAXMSG, F_REPLY_8192,
-       P_VARARGS, P_ARRAY, P_ARGVAL, P_NULLBUF, P_NESTED, P_EMPTY_BUNDLE, P_NULL_BLOB, P_LINK_DROPPED, P_LINK_PASSED, P_REPLY_TOO_BIG, P_REPLY_FITS, P_BIG, P_CTOR_DISAGREE, P_AV_RANGE, ST_N };
+       P_VARARGS, P_ARRAY, P_ARGVAL, P_NULLBUF, P_NESTED, P_EMPTY_BUNDLE, P_NULL_BLOB, P_LINK_DROPPED, P_LINK_PASSED, P_REPLY_TOO_BIG, P_REPLY_FITS, P_BIG, P_CTOR_DISAGREE, P_AV_RANGE, P_GIANT, ST_N };
 static const char *STAT_NAMES[ST_N] = { "runs", "evaluations", "objects.messages", "objects.bundles", "fault.capacity_short", "fault.capacity_exact", "fault.capacity_zero", "fault.capacity_generous", "fault.link_maxmsg_around_size", "fault.reply_buffer_8192_boundary",
        "probe.varargs_constructor", "probe.array_constructor", "probe.argval_constructor", "probe.null_buffer_size_query", "probe.nested_bundle", "probe.empty_bundle", "probe.null_blob", "probe.link_dropped_oversize", "probe.link_passed_exact_fit",
-       "probe.reply_larger_than_buffer", "probe.reply_fits_buffer", "probe.object_over_256_bytes", "constructors_disagree_on_size", "probe.argval_list_with_range" };
+       "probe.reply_larger_than_buffer", "probe.reply_fits_buffer", "probe.object_over_256_bytes", "constructors_disagree_on_size", "probe.argval_list_with_range", "probe.message_whose_size_exceeds_32_bits" };
 
 static const char *VT[] = {"", "i", "s", "b", "f", "is", "si", "sb", "ifs", "hd", "tS", "c", "r", "m", "TFNI", "i[ii]", "sbi", "bs", "dh", "ssss", "[sT]", "ib", "NIf", "mm"};
 static const int NVT = sizeof VT / sizeof VT[0];
@@ -71,7 +71,7 @@ struct CapWorld : World {
     std::string describe(const Op &op) const override { return msggen::describe(op); }
     std::vector<Op> simpler(const Op &op) const override { return msggen::simpler(op); }
     void gen(const std::string &, Rng &kr, Rng &pr, Knobs &k, Plan &p) override {
-        k.assign(2, 0); k[0] = kr.chance(0.3); k[1] = kr.chance(0.05);
+        k.assign(4, 0); k[0] = kr.chance(0.3); k[1] = kr.chance(0.05); k[2] = kr.chance(0.04); k[3] = (int64_t)kr.below(1 << 20);
         if (pr.chance(0.3)) gen_bundle(pr, p, 0, 120);
         else if (pr.chance(0.45)) {    // a message shaped for one of the varargs templates
             const char *t = VT[pr.below(NVT)]; Op a; a.kind = G_ADDR; a.a[0] = 1 + (int64_t)pr.below(20); a.a[1] = (int64_t)pr.below(100000); p.push_back(a);
@@ -83,6 +83,23 @@ struct CapWorld : World {
     Result exec(const std::string &, const Knobs &k, const Plan &plan, Choices &) override {
         Result res; stat_add(ST_RUNS); char b[400];
         auto fail = [&](const char *cls, const std::string &d) { if (res.cls.empty()) { res.cls = cls; res.detail = d; } };
+        // a message that cannot fit anywhere: blobs without data (a supported form) whose lengths add up to 2 GiB .. 8 GiB. The size query must say so
+        // (64-bit size_t), and every real capacity must be refused with the buffer zeroed and nothing else touched.
+        if (k.size() > 3 && k[2]) {
+            static const char *GT[] = {"b", "bb", "bbb", "sbb", "bib", "bbs"}; static const int32_t GL[] = {0x7ffffffc, 0x7ffffff0, 0x40000000, 0x7fffffff, 0x3ffffffc, 0x7ffffffd};
+            uint64_t sd = (uint64_t)k[3]; const char *t = GT[sd % 6]; sd /= 6; rtosc_arg_t a[4]; size_t na = 0; uint64_t want = 4 /* "/g\0\0" */ + ((strlen(t) + 1) / 4 + 1) * 4;
+            for (const char *q = t; *q; q++) { if (*q == 'b') { int32_t L = GL[sd % 6]; sd /= 6; a[na].b.len = L; a[na].b.data = nullptr; want += 4 + (((uint64_t)(uint32_t)L + 3) & ~3ull); } else if (*q == 's') { a[na].s = "abc"; want += 4; } else { a[na].i = 7; want += 4; } na++; }
+            stat_add(P_GIANT); stat_add(P_NULL_BLOB); res.nontrivial = true; res.shape_hash = mix64(991, (uint64_t)k[3]);
+            size_t n0 = rtosc_amessage(nullptr, 0, "/g", t, a); stat_add(ST_EVALS);
+            if ((uint64_t)n0 != want) { snprintf(b, sizeof b, "NULL buffer: reported %zu bytes for types \"%s\" with data-less blobs, the encoding needs %llu", n0, t, (unsigned long long)want); fail("NULL-SIZE", b); }
+            for (size_t c = 0; c <= 72 && res.cls.empty(); c += (c < 24 ? 1 : 4)) {
+                Guarded g(c); size_t r = rtosc_amessage(g.p, c, "/g", t, a); stat_add(ST_EVALS); stat_add(c ? F_CAP_SHORT : F_CAP_ZERO); long d = g.damaged();
+                if (d != LONG_MIN) { snprintf(b, sizeof b, "capacity %zu (needed %llu, types \"%s\", data-less blobs): byte at offset %ld of the destination was written", c, (unsigned long long)want, t, d); fail("OVERRUN", b); break; }
+                if (r != 0) { snprintf(b, sizeof b, "capacity %zu < needed %llu (types \"%s\", data-less blobs): returned %zu instead of 0", c, (unsigned long long)want, t, r); fail("SHORT-RETURN", b); break; }
+                for (size_t i = 0; i < c; i++) if (g.p[i]) { snprintf(b, sizeof b, "capacity %zu < needed %llu: buffer not zero-filled after the failed call", c, (unsigned long long)want); fail("PARTIAL", b); break; }
+            }
+            res.trace_hash = mix64(n0, 5); return res;
+        }
         std::vector<GElem> top = build(plan);
         if (top.empty()) { res.trace_hash = 1; return res; }
         const GElem &e = top[0];
@@ -137,6 +154,12 @@ struct CapWorld : World {
                     else { if (mm == needed) stat_add(P_LINK_PASSED);
                         if (!has) { snprintf(b, sizeof b, "ThreadLink(MaxMsg=%zu): a %zu-byte message was not queued", mm, needed); fail("LINK-LOST", b); }
                         else { const char *rd = tl.read(); if (memcmp(rd, ref.data(), needed)) { snprintf(b, sizeof b, "ThreadLink(MaxMsg=%zu): message differs after the trip", mm); fail("LINK-BYTES", b); } } }
+                    // the documented raw route: build into buffer() with the capacity buffer_size() reports, then raw_write (as example/complex/synth.cpp does)
+                    if (res.cls.empty()) { rtosc::ThreadLink t2(mm, 3); size_t cap = t2.buffer_size(), got = rtosc_amessage(t2.buffer(), cap, m.addr.c_str(), p.types.c_str(), p.args.data()); stat_add(ST_EVALS);
+                        if (got) t2.raw_write(t2.buffer());
+                        bool h2 = t2.hasNext();
+                        if (mm < needed && h2) { snprintf(b, sizeof b, "ThreadLink(MaxMsg=%zu) raw route: a %zu-byte message was queued", mm, needed); fail("LINK-OVERSIZE", b); }
+                        if (mm >= needed && (!h2 || memcmp(t2.read(), ref.data(), needed))) { snprintf(b, sizeof b, "ThreadLink(MaxMsg=%zu) raw route: a %zu-byte message was lost or changed", mm, needed); fail("LINK-LOST", b); } }
                 }
             }
         } else {
